@@ -326,7 +326,7 @@ func init() {
 		ID: "C15", Level: "exploration", Variant: "I", Design: "DESIGN.md §5 C15",
 		Rule:      "Each run stores a valid ar archive (C13 generator) or .deb (stored/gzip members) on the simulated disk and damages the stored bytes with one fault: a header column (timestamp, uid, gid, size) overwritten with a negative, -60, -61, huge, blank, signed or non-numeric value; one or both header magic bytes wrong; truncation inside the global magic, a header, the data or on the pad byte; a member duplicated, all members reordered, or an extra member under a colliding control.*/data.*/debian-binary name; 1..4 byte flips biased into headers; or raw bytes after a valid global magic. The ar iterator runs twice and deb.Load three times, each under a tape-chosen disk profile and member order; steps are counted at disk reads and instrumented loop heads.",
 		Run:       runC15,
-		QuickRuns: 150000, QuickSecs: 40, ThoroughRuns: 5_000_000, ThoroughSecs: 900,
+		QuickRuns: 300000, QuickSecs: 40, ThoroughRuns: 5_000_000, ThoroughSecs: 900,
 		Components: map[string]interface{}{
 			"real_instrumented": []string{"pault.ag/go/debian/deb (LoadAr, Ar.Next, parseArEntry, Load, loadDeb, loadDeb2Control, loadDeb2Data)"},
 			"real":              []string{"archive/tar, compress/gzip (stdlib)"},
